@@ -165,6 +165,46 @@ def _closure_at(f, e):
     return out
 
 
+def exec_command_eval(p, ec, out, err, rc, fail=None):
+    """exec_command('the command', '/d') evaluated with a stand-in subprocess module -> (result, [(command, Popen keywords)])"""
+    from ..pyeval import Interp, Model, Unsupported, Raised, pure_os
+
+    class Proc(Model):
+        def __init__(self):
+            self.returncode = rc
+
+        def communicate(self):
+            return (out, err)
+
+    class SP(Model):
+        PIPE = -1
+
+        def __init__(self):
+            self.calls = []
+
+        def Popen(self, command, **kw):
+            self.calls.append((command, kw))
+            if fail is not None:
+                raise fail
+            return Proc()
+
+    class Clock(Model):
+        def __init__(self):
+            self.t = [10.0, 12.5, 13.0, 14.0]
+
+        def default_timer(self):
+            return self.t.pop(0)
+    sp = SP()
+    I = Interp(p, consts={'is_python3': True})
+    osm = pure_os()
+    osm.environ = {}
+    I.extra_names.update({'subprocess': sp, 'timeit': Clock(), 'os': osm})
+    try:
+        return I.call(ec, ['the command', '/d']), sp.calls
+    except (Unsupported, Raised) as e:
+        return None, str(e)
+
+
 def order(run, p):
     run.rule('C12-ORDER', 'the generated class removes previous outputs before it re-runs the command, runs the command through '
                           'exec_command exactly once in setUpClass, and its exception / exit-code tests read what that call assigned')
@@ -196,18 +236,31 @@ def order(run, p):
     t2 = meths.get('test_exit_code')
     ok2 = t2 is not None and any(norm(x) == 'self.assertEqual(self.exit_code, 0)' for x in ast.walk(t2))
     run.ob('C12-ORDER', 'HEADER:tests', ok1 and ok2, 'test_no_exception asserts self.exception is None (%s); test_exit_code asserts self.exit_code == EXIT_CODE (%s)' % (ok1, ok2), rel=bp.rel, line=1)
-    # exec_command returns the five values in that order, from one ExecuteCommand
+    # exec_command, evaluated with a stand-in subprocess / clock: one Popen of the command in the directory, and the five values in
+    # the order setUpClass unpacks them - for a normal run, for a command that cannot be started, for output that is not UTF-8
     ec = p.fn(GT + 'exec_command')
-    ret = [r for r in ast.walk(ec.node) if isinstance(r, ast.Return)]
-    ok3 = False
-    if len(ret) == 1 and isinstance(ret[0].value, ast.Tuple):
-        els = ret[0].value.elts
-        # the five attributes, in this order, of one and the same object, which is the ExecuteCommand(command, cwd) result
-        base = {norm(e.value) for e in els if isinstance(e, ast.Attribute)}
-        made = [s for s in ast.walk(ec.node) if isinstance(s, ast.Assign) and isinstance(s.value, ast.Call) and
-                getattr(s.value.func, 'id', '') == 'ExecuteCommand' and any(norm(t) in base for t in s.targets)]
-        ok3 = [getattr(e, 'attr', None) for e in els] == ['out', 'err', 'exc', 'exit_code', 'duration'] and len(base) == 1 and len(made) == 1
-    run.ob('C12-ORDER', 'exec_command', ok3, 'exec_command returns %s' % (norm(ret[0].value) if ret else None), fn=ec)
+    probs = []
+    for label, (out, err, rc, fail), want in (
+            ('a run that exits 3', (b'out\xc3\xa9', b'err', 3, None), ('out\u00e9', 'err', None, 3, 2.5)),
+            ('a command that cannot be started', (b'', b'', 0, OSError('cannot start')), (None, None, 'OSError', None, 2.5)),
+            ('output that is not UTF-8', (b'\xff', b'err', 0, None), (None, None, 'UnicodeDecodeError', 0, 2.5))):
+        got, calls = exec_command_eval(p, ec, out, err, rc, fail)
+        if got is None:
+            raise AnalysisError('exec_command is not evaluable: %s' % calls)
+        if not (isinstance(got, tuple) and len(got) == 5):
+            probs.append('%s: returns %r' % (label, got))
+            continue
+        shown = tuple(type(x).__name__ if isinstance(x, BaseException) else x for x in got)
+        if label.startswith('output that'):
+            okk = shown[2] == 'UnicodeDecodeError' and shown[3] == 0 and shown[4] == 2.5
+        else:
+            okk = shown == want
+        if not okk:
+            probs.append('%s: returns %r' % (label, shown))
+        if len(calls) != 1 or calls[0][0] != 'the command' or calls[0][1].get('cwd') != '/d' or not calls[0][1].get('shell'):
+            probs.append('%s: the command is started %d time(s): %r' % (label, len(calls), calls[:1]))
+    run.ob('C12-ORDER', 'exec_command', not probs, 'exec_command, evaluated on three runs, returns (output, error, exception, exit code, duration) '
+           'from one start of the command%s' % ('' if not probs else ': ' + '; '.join(probs[:2])), fn=ec)
     # remove_previous_outputs deletes the generated files
     rp = p.method('TestGenerator', 'remove_previous_outputs')
     src = ' '.join(x.value for x in ast.walk(rp.node) if isinstance(x, ast.Constant) and isinstance(x.value, str))
@@ -255,7 +308,13 @@ def strict(run, p):
     run.rule('C12-STRICT', 'the command\'s output is decoded strictly: undecodable bytes make the run report an exception instead of being dropped')
     c = p.cls('ExecuteCommand')
     n = 0
-    for f in c.methods.values():
+    ec = p.fn(GT + 'exec_command')
+    runners = {f.qn: f for f in c.methods.values()}
+    for (qn, _ctx) in p.reach([(ec, None)], use_cha=False):
+        g = p.funcs[qn]
+        if g.mod is ec.mod and (g is ec or g.cls is c):
+            runners[g.qn] = g
+    for f in [runners[q] for q in sorted(runners)]:
         for x in ast.walk(f.node):
             if isinstance(x, ast.Call) and isinstance(x.func, ast.Attribute) and x.func.attr == 'decode':
                 n += 1
